@@ -148,6 +148,10 @@ C07_OP( w_rewind, OP_REWIND )
 // ------------------------------------------------------------------ a rule on buffer_input and on memory_input
 #ifdef C07_RULE
 
+#ifndef C07_REWIND
+#define C07_REWIND required   // grammars that discard run like tao::pegtl::parse() does by default: optional (no rewind guard is live across the discard)
+#endif
+
 struct A1 : one< 'a' > {};   // rules that carry a logging action
 struct B1 : one< 'b' > {};
 
@@ -191,7 +195,7 @@ static void run_rule( Input& in, unsigned long* o )
 {
    o[ 2 ] = 0; o[ 3 ] = 0; o[ 6 ] = 0; o[ 7 ] = 0;
    try {
-      o[ 0 ] = vf::vcontrol< C07_RULE >::template match< apply_mode::action, rewind_mode::required, act, vf::vcontrol >( in );
+      o[ 0 ] = vf::vcontrol< C07_RULE >::template match< apply_mode::action, rewind_mode::C07_REWIND, act, vf::vcontrol >( in );
    }
    catch( const vf::verif_exc& e ) {
       o[ 0 ] = 2; o[ 2 ] = e.id; o[ 3 ] = e.byte; o[ 6 ] = e.line; o[ 7 ] = e.column;
